@@ -62,11 +62,11 @@ def run(ck: Check):
 
 
 def coverage_statistic(ck, reqs):
-    """Model-only: which share of the model's plan (statements + functions) is covered by the proved theorems with
-    all of their decidable hypotheses evaluated to true by the driver:
-    * `c03_full_checked` (the liveness simulation, T5, with calls of pure user functions): EVERY plan contained in
-      the model plan of a program is covered when `live=1`, i.e. `modelOkB root facts` (distinct ids, global
-      consistency of the facts, the statement-by-statement liveness conditions `rootOkB` for the model's own plan);
+    """Model-only: for which programs do the decidable hypotheses of the proved theorems evaluate to true (driver):
+    * `c03_full_holds` (C03 itself: every plan contained in the model's plan; liveness simulation T5 with calls of
+      pure user functions): hypothesis `structOkB root facts` — distinct ids, consistency of the facts and of the
+      model's tables/verdicts with the annotated program, no plan involved (`live=1`); the whole model plan of such
+      a program is covered;
     * `c03_partial_checked` (the older static theorem: unreachable statements, unused functions, quiet stores to
       never-read variables) for comparison."""
     if not reqs or not os.path.exists(DRIVER):
@@ -90,11 +90,11 @@ def coverage_statistic(ck, reqs):
         for k in why:
             if d.get(k) == "0":
                 why[k] += 1
-    ck.extra_cov["plan_items_covered_by_c03_full_checked"] = \
+    ck.extra_cov["plan_items_covered_by_c03_full"] = \
         f"{live_items}/{tot} over {n} programs (all decidable hypotheses hold on {live_n})"
     ck.extra_cov["plan_items_covered_by_c03_partial_checked"] = f"{proved}/{tot} over {n} programs (hypotheses hold on {ok})"
     if n and live_n < n:
-        ck.notes.append(f"c03_full_checked: decidable hypotheses (modelOkB) failed on {n - live_n} of {n} sampled programs "
+        ck.notes.append(f"c03_full: decidable hypothesis structOkB failed on {n - live_n} of {n} sampled programs "
                         f"(failing condition counts: {why})")
     if n and why["distinct"] + why["global"] + why["fnsok"]:
         # plan-independent consistency conditions on the facts: these must hold for every program of the real front end
